@@ -1,6 +1,7 @@
 use crate::DbError;
 use crate::DbErrorType;
 use crate::DbImpl;
+use crate::QueryId;
 use crate::QueryIds;
 use crate::QueryMut;
 use crate::QueryResult;
@@ -27,6 +28,15 @@ pub struct InsertAliasesQuery {
     pub aliases: Vec<String>,
 }
 
+impl InsertAliasesQuery {
+    fn edge_id_error(id: i64) -> DbError {
+        DbError::query(
+            DbErrorType::NotAllowed,
+            format!("Aliases can only be assigned to nodes - edge id '{id}' found"),
+        )
+    }
+}
+
 impl QueryMut for InsertAliasesQuery {
     fn process<Store: StorageData>(&self, db: &mut DbImpl<Store>) -> Result<QueryResult, DbError> {
         let mut result = QueryResult::default();
@@ -44,6 +54,8 @@ impl QueryMut for InsertAliasesQuery {
                     ));
                 }
 
+                // Validate the whole query before the first change so that a
+                // rejected query has no effect.
                 for (id, alias) in ids.iter().zip(&self.aliases) {
                     if alias.is_empty() {
                         return Err(DbError::query(
@@ -52,7 +64,20 @@ impl QueryMut for InsertAliasesQuery {
                         ));
                     }
 
+                    if let QueryId::Id(db_id) = id
+                        && db_id.0 < 0
+                    {
+                        return Err(Self::edge_id_error(db_id.0));
+                    }
+                }
+
+                for (id, alias) in ids.iter().zip(&self.aliases) {
                     let db_id = db.db_id(id)?;
+
+                    if db_id.0 < 0 {
+                        return Err(Self::edge_id_error(db_id.0));
+                    }
+
                     db.insert_alias(db_id, alias)?;
                     result.result += 1;
                 }
